@@ -59,7 +59,7 @@ Theorem C12_placement_hist : forall (K : Type) (O : ops K) skip st (fs : list (e
 Proof. exact mat_hist. Qed.
 Print Assumptions C12_placement_hist.
 
-(* the property, within the guard no_delayed_factor_in_j0: the matrices get_jacobian_func builds are the partial derivatives of the vector field
+(* the guarded form (kept: it holds for both values of the switch): the matrices get_jacobian_func builds are the partial derivatives of the vector field
    get_run_func evaluates (J0: with respect to the state; one matrix per distinct delay: with respect to the delayed state) *)
 Theorem C12_partial : forall (K : Type) (O : ops K),
   ring_theory (o0 O) (o1 O) (oadd O) (omul O) (osub O) (oopp O) eq ->
@@ -81,21 +81,21 @@ Theorem C12_history_list_complete : forall (K : Type) (O : ops K),
 Proof. exact spec_Jd_zero. Qed.
 Print Assumptions C12_history_list_complete.
 
-(* the full statement (no guard).  It is false of the code that prints instantaneous entries without the table of past symbols
-   (defect D08b: NameError), and it is a theorem of the model with the repair proposed_fix_C12_D08b.diff; which of the two the
-   model `jac_impl` is, is the switch Jacobian.fixed_D08b. *)
-Theorem C12_refuted_delayed_factor :
+(* HEADLINE.  The property without any guard: for every well-formed model description (distinct state variables, one right-hand
+   side per state variable, past() only of state variables), every environment: the matrices get_jacobian_func builds are the
+   partial derivatives of the vector field get_run_func evaluates (J0 with respect to the state, one matrix per distinct delay
+   symbol with respect to the delayed state), in the state ordering.  (C12_full_statement := forall s r, wf s = true ->
+   jac_impl QcO s r = jac_spec QcO s r; the same over any commutative ring is C12_full_any_ring with pastJ0 = true.) *)
+Theorem C12_full : C12_full_statement.
+Proof. exact full_statement. Qed.
+Print Assumptions C12_full.
+
+(* note, before fix D64 (defect D08b): instantaneous entries were printed without the table of past symbols; an entry that keeps
+   a delayed factor named an undefined variable (NameError at call time) and the statement was false *)
+Theorem C12_D08b_before_fix_refuted :
   ~ (forall (s : sys Qc) (r : atom -> Qc), wf s = true -> jac_impl_D08b_open QcO s r = jac_spec QcO s r).
 Proof. exact D08b_open_refuted. Qed.
-Print Assumptions C12_refuted_delayed_factor.
-
-Theorem C12_full_refuted_while_D08b_open : fixed_D08b = false -> ~ C12_full_statement.
-Proof. exact full_statement_refuted_while_open. Qed.
-Print Assumptions C12_full_refuted_while_D08b_open.
-
-Theorem C12_full_when_D08b_fixed : fixed_D08b = true -> C12_full_statement.
-Proof. exact full_statement_iff_switch. Qed.
-Print Assumptions C12_full_when_D08b_fixed.
+Print Assumptions C12_D08b_before_fix_refuted.
 
 Theorem C12_full_any_ring : forall (K : Type) (O : ops K),
   ring_theory (o0 O) (o1 O) (oadd O) (omul O) (osub O) (oopp O) eq ->
